@@ -118,7 +118,8 @@ def gen_pf(rng, depth, in_body, names, flags):
             # a fall-through group: several labels share the next keyed result
             for kk in rng.sample(["a", "b", "c", "d", "e"], rng.randint(2, 3)):
                 cases.append(txt(kk))
-            cases.append(txt(rng.choice(["a", "e", "zz"]) + "=") + s())
+            # (the group may end in "#default=": a matching label before it still takes that value - seed C04q)
+            cases.append(txt(rng.choice(["a", "e", "zz", "#default", "#default"]) + "=") + s())
         else:
             cases.append(txt(k + "=") + s())
     if rng.random() < 0.3:
